@@ -143,12 +143,84 @@ theorem glob_spec (rd : Reader) (mk : Matcher) (cfg : Cfg) (base pat : Str) (l :
       rw [mem_dropEmptyHead hr, mem_sortStrs, globLoop_sel _ _ _ hns hm r]
       simp
 
-/-- The same for patterns with an active `**` (the DFS): not proved; stated for the record.
-    `SelStar` would add: from prefix `d`, `**` selects `d/` and every path below it whose components
-    do not start with a dot (unless dotglob), directories only when more components follow. -/
+/-- No duplicates, for patterns without an active `**`, over any directory reader that lists
+    distinct, non-empty, slash-free names. -/
+theorem glob_nodup_partial (rd : Reader) (mk : Matcher) (cfg : Cfg) (base pat : Str) (l : List Str)
+    (hwf : ReaderWF rd) (hns : ∀ p ∈ patParts pat, isGlobStar cfg p = false)
+    (h : glob rd mk cfg base pat = .ok l) : l.Nodup := by
+  unfold glob at h
+  unfold patParts at hns
+  have hsf : ∀ p ∈ splitOn cSlash pat, cSlash ∉ p := splitOn_slashfree cSlash pat
+  by_cases hab : isAbs pat = true
+  · simp only [hab, if_true] at h hns
+    split at h
+    · cases h
+    · rename_i m hm
+      cases h
+      have hl : Level .S [[cSlash]] := ⟨by simp, by intro d hd; simp at hd; subst hd; simp [HasShape, endsSlash]⟩
+      have := globLoop_level hwf _ _ _ _ (fun p hp => hsf p (List.mem_of_mem_tail hp)) hns hl hm
+      exact (dropEmptyHead_sublist _).nodup ((sortStrs_perm m).nodup_iff.mpr this)
+  · have hab' : isAbs pat = false := by simpa using hab
+    simp only [hab', Bool.false_eq_true, if_false] at h hns
+    split at h
+    · cases h
+    · rename_i m hm
+      cases h
+      have hl : Level .E [[]] := ⟨by simp, by intro d hd; simp at hd; subst hd; simp [HasShape]⟩
+      have := globLoop_level hwf _ _ _ _ hsf hns hl hm
+      exact (dropEmptyHead_sublist _).nodup ((sortStrs_perm m).nodup_iff.mpr this)
+
+/-- The full statement (every pattern): FALSE today — a second `**` walks again from every match of
+    the first one (`**/**` lists `d/y` twice). -/
+def glob_nodup_statement : Prop :=
+  ∀ (rd : Reader) (mk : Matcher) (cfg : Cfg) (base pat : Str) (l : List Str),
+    ReaderWF rd → glob rd mk cfg base pat = .ok l → l.Nodup
+
+def starTree : Node := .dir [(strOf "w", .dir [(strOf "d", .dir [(strOf "y", .file)])])]
+def cfgStar : Cfg := ⟨false, false, true, false, false, false⟩
+
+theorem glob_nodup_counterexample :
+    (match glob (readDir starTree) extMatcher cfgStar (strOf "/w") (strOf "**/**") with
+      | .ok l => l == [strOf "d", strOf "d/", strOf "d/y", strOf "d/y"]
+      | .error _ => false) = true := by decide +kernel
+
+theorem glob_nodup_statement_false : ¬ glob_nodup_statement := by
+  intro h
+  have hwf : ReaderWF (readDir starTree) := readDir_wf starTree (by decide)
+  have hc := glob_nodup_counterexample
+  cases hg : glob (readDir starTree) extMatcher cfgStar (strOf "/w") (strOf "**/**") with
+  | error e => simp [hg] at hc
+  | ok l =>
+    simp only [hg] at hc
+    have hl : l = [strOf "d", strOf "d/", strOf "d/y", strOf "d/y"] := by simpa using hc
+    have := h _ _ _ _ _ _ hwf hg
+    rw [hl] at this
+    revert this
+    decide
+
+/-- What the `**` walk may reach from the prefix `d`: `d` itself and, repeatedly, the entries
+    (not starting with a dot unless dotglob; directories only when `wantDir`) of anything reached. -/
+inductive StarReach (rd : Reader) (base : Str) (dotglob wantDir : Bool) : Str → Str → Prop
+  | refl (d : Str) : StarReach rd base dotglob wantDir d d
+  | step {d y x : Str} {l : List Str} : StarReach rd base dotglob wantDir d y →
+      globDir rd base y (starName dotglob) wantDir = .ok l → x ∈ l → StarReach rd base dotglob wantDir d x
+
+def StepStar (rd : Reader) (mk : Matcher) (cfg : Cfg) (base : Str) (wantDir : Bool) (p d x : Str) : Prop :=
+  if isGlobStar cfg p = true then StarReach rd base cfg.dotglob wantDir (pathJoin2 d []) x
+  else Step rd mk cfg base wantDir p d x
+
+inductive SelStar (rd : Reader) (mk : Matcher) (cfg : Cfg) (base : Str) : List Str → Str → Str → Prop
+  | done (d : Str) : SelStar rd mk cfg base [] d d
+  | step {p : Str} {rest : List Str} {d x r : Str} :
+      StepStar rd mk cfg base (!rest.isEmpty) p d x → SelStar rd mk cfg base rest x r →
+      SelStar rd mk cfg base (p :: rest) d r
+
+/-- Model = specification for every pattern, `**` included (whenever the walk finishes): stated for
+    the record, NOT proved (the stack discipline of the walk is only checked by correspondence). -/
 def glob_spec_globstar_statement : Prop :=
   ∀ (rd : Reader) (mk : Matcher) (cfg : Cfg) (base pat : Str) (l : List Str),
-    glob rd mk cfg base pat = .ok l → Sorted l
+    glob rd mk cfg base pat = .ok l → ∀ r, r ≠ [] →
+      (r ∈ l ↔ SelStar rd mk cfg base (patParts pat) (patStart pat) r)
 
 /-! ## non-vacuity -/
 
